@@ -239,7 +239,7 @@ def r3_r4(ctx, rep):
                         if p_.get("k") == "if":
                             if not any(x is cur for x in walk(p_["t"])) and cur is not p_["t"]:
                                 ok = False      # reached through an else branch: the negated condition
-                            conds.append(show(p_["c"], maxdepth=8))
+                            conds.append(__import__("alpha").Inliner(lp).show(p_["c"]))      # named booleans inlined
                         cur = p_
                     txt = " && ".join(conds)
                     ok = ok and bool(re.search(r"== closure_param\b|\bclosure_param ==", txt)) and "!=" not in txt and "||" not in txt and "target" in txt
@@ -311,11 +311,14 @@ def r6(ctx, rep):
     rep.rule("C16.R6", "tables are lowered in dependency order; the main relation is not a table", floor=3)
     syn = ctx.syn
     f = syn.fn("lowering::lower_to_ir", crate="prqlc")
-    txt = show_stmts(f["body"], maxdepth=8)
-    a, b = txt.find("TableExtractor::extract(&root_mod.module)"), txt.find("toposort_tables(tables, &main_ident)")
-    rep.check(0 <= a < b, "toposort", "tables must be extracted and then topologically sorted before lowering", file=f["file"], line=f["l"], fn=f["path"])
+    import alpha as _alpha
+    A6 = _alpha.Inliner(f)
     loop = [n for n in f["body"]["s"] if n.get("k") == "for"]
-    ok = bool(loop) and show(loop[0]["e"]) == "tables" and "l.lower_table_decl(table, fq_ident)" in show_stmts(loop[0]["body"], maxdepth=8)
+    # by role: what the lowering loop iterates over, with intermediate lets inlined, is the topological sort of the extracted tables
+    it = A6.show(loop[0]["e"], strip=True).replace(" ", "") if loop else ""
+    rep.check(re.fullmatch(r"toposort_tables\(TableExtractor::extract\(root_mod\.module\),main_ident\)", it) is not None, "toposort",
+              f"tables must be extracted and then topologically sorted before lowering (the lowering loop iterates over `{it}`)", file=f["file"], line=f["l"], fn=f["path"])
+    ok = bool(loop) and "l.lower_table_decl(table, fq_ident)" in show_stmts(loop[0]["body"], maxdepth=8)
     rep.check(ok, "lowered-in-order", "tables must be lowered by iterating the sorted list in order (declaration before use)", file=f["file"], line=f["l"], fn=f["path"])
     ok = False
     import guards as _g
